@@ -139,8 +139,8 @@ prop("C08", [
     S(CLIENT, "^TestC08Regress$", kind="plain"),
     S(CLIENT, "^TestC08Errnos$", kind="plain"),
     S(CLIENT, "^TestC08StatusValues$", kind="plain"),
-    S(CLIENT, "^TestC08$", q=3000, t=20000, shards=16),
-    S(CLIENT, "^TestC08RealTransport$", kind="plain", q=120, t=5000),
+    S(CLIENT, "^TestC08$", q=3000, t=12000, shards=16),
+    S(CLIENT, "^TestC08RealTransport$", kind="plain", q=120, t=3000),
 ], ["the simulated kernel never hands out request sequence 0 (the kernel uses 0 for unsolicited events); what the library's own transport hands out is covered by the real-transport stage",
     "real-transport stage: rtnetlink in a private network namespace plays the kernel (every audit message type is refused with EOPNOTSUPP; unsolicited sequence-0 messages are address notifications caused by a raw socket); skipped without the privilege",
     "'identifies the errno' = errors.Is(err, errno), plus AddRule's documented 'rule exists' text for EEXIST",
